@@ -66,7 +66,10 @@ def prim {α : Type} (r : Except Err α) (bytes : Nat) : CE α := (r, ⟨1, byte
 def readNC (n : Nat) : RC B := fun d p => prim (readN n d p) (min n (d.length - p))
 def readUpToC (n : Nat) : RC B := fun d p => prim (readUpTo n d p) (min n (d.length - p))
 def readAllC : RC B := fun d p => prim (readAll d p) (d.length - p)
-def readPyC (n : Int) : RC B := if n < 0 then readAllC else readUpToC n.toNat
+def readPyC (n : Int) : RC B := fun d p =>
+  if n < 0 then readAllC d p
+  else if overflows n.toNat d then CE.error .overflowError
+  else readUpToC n.toNat d p
 
 /-- `is_readable(fp, n)`: `len(fp.read(n))`, seek back -/
 def isReadableC (n : Nat) (d : B) (p : Nat) : CE Bool := prim (.ok (isReadable n d p)) (min n (d.length - p))
@@ -90,11 +93,13 @@ def readPaddingC (size divisor : Nat) : RC Unit := fun d p => do
 def readLenBlockC (skip w pad : Nat) : RC B := fun d p => do
   let (_, p0) ← readNC skip d p
   let (n, p1) ← readUC w d p0
-  let (x, p2) ← readUpToC n d p1
-  if x.length ≠ n then CE.error .ioError
+  if overflows n d then CE.error .overflowError
   else do
-    let (_, p3) ← readPaddingC n pad d p2
-    CE.ok (x, p3)
+    let (x, p2) ← readUpToC n d p1
+    if x.length ≠ n then CE.error .ioError
+    else do
+      let (_, p3) ← readPaddingC n pad d p2
+      CE.ok (x, p3)
 
 def readPascalC (pad : Nat) : RC B := fun d p => do
   let (n, p1) ← readUC 1 d p
@@ -304,7 +309,8 @@ def LayerInfo.decC (version : Nat) : RC LayerInfo := fun d p => do
   let (li, p) ← (if length = 0 then CE.ok (⟨0, none, none⟩, p) else do
     let (li, p) ← LayerInfo.bodyDecC version d p
     CE.ok (li.normCount0, p))
-  if p ≤ endPos then CE.ok (li, endPos) else CE.error .assertionError
+  if p ≤ endPos then (if overflows endPos d then CE.error .overflowError else CE.ok (li, endPos))
+  else CE.error .assertionError
 
 def GlobalLayerMaskInfo.decC : RC GlobalLayerMaskInfo := fun d pos => do
   let (data, p) ← readLenBlockC 0 4 1 d pos
@@ -329,7 +335,7 @@ def LayerAndMask.decC (version : Nat) : RC LayerAndMask := fun d p => do
   let (length, p) ← readUC (secW version) d p
   let endPos := p + length
   let (x, _) ← (if length = 0 then CE.ok (⟨none, none, none⟩, p) else LayerAndMask.bodyDecC version endPos d p)
-  CE.ok (x, endPos)
+  if overflows endPos d then CE.error .overflowError else CE.ok (x, endPos)
 
 def ImageData.decC : RC ImageData := fun d p => do
   let (comp, p) ← readUC 2 d p
